@@ -19,6 +19,7 @@ import (
 	"github.com/go-i2p/common/signature"
 
 	"i2psim.local/sim/adapters"
+	"i2psim.local/sim/consume"
 	"i2psim.local/sim/engine"
 	"i2psim.local/sim/obs"
 	"i2psim.local/sim/refmodel"
@@ -28,7 +29,9 @@ type World struct{}
 
 func (World) Name() string { return "buf" }
 
-const bufSize = 4096 // frames that do not fit (boundary-length certificates) are skipped and counted
+// bufSize is the default size of a receive buffer; a run may use larger ones
+// (config knob "bufsize") so that frames of tens of kilobytes fit too.
+const defaultBufSize = 4096
 
 // The property exempts the options of a LeaseSet2 / MetaLeaseSet and the
 // entry properties of a MetaLeaseSet ("the identity, key, lease and signature
@@ -55,6 +58,9 @@ func (World) Generate(r *engine.RNG, tier string) *engine.Script {
 	s := &engine.Script{Property: "C08", Config: map[string]int64{}}
 	nbuf := r.Range(2, 4)
 	s.Config["nbuf"] = int64(nbuf)
+	if r.Chance(1, 8) {
+		s.Config["bufsize"] = 72 * 1024
+	}
 	ads := c08Adapters()
 	nops := r.Range(3, 14)
 	if tier == "thorough" {
@@ -73,8 +79,13 @@ func (World) Generate(r *engine.RNG, tier string) *engine.Script {
 			if r.Chance(1, 2) {
 				off = r.PickInt(1, 2, 3, 7, 16, 100, 333)
 			}
+			// N = buffer, offset, followed-by-next-frame, placement (1 = flush with
+			// the end of the buffer, so that len == cap for the parser),
+			// baseline (1 = the value itself is not touched before the first
+			// overwrite; its expected observation comes from a twin parsed
+			// from a private copy of the same bytes)
 			s.Ops = append(s.Ops, engine.Op{Op: "recv", Struct: a.Name, Shape: a.Gen(r.Fork()),
-				N: []int64{int64(r.Intn(nbuf)), int64(off), int64(r.Intn(2))}})
+				N: []int64{int64(r.Intn(nbuf)), int64(off), int64(r.Intn(2)), int64(r.PickInt(0, 0, 0, 1)), int64(r.PickInt(0, 0, 1))}})
 			live++
 		case k < 8:
 			sel := int64(r.Intn(64))
@@ -97,6 +108,7 @@ type liveValue struct {
 	fullOpt       *obs.Options
 	exempt        [][2]int // absolute [start,end) ranges in its buffer
 	exemptTouched bool
+	restricted    bool // opt leaves the exempt parts out
 	id            int
 	ad            *adapters.Adapter
 	val           any
@@ -106,6 +118,23 @@ type liveValue struct {
 	frame         *refmodel.Frame
 	opt           *obs.Options
 	dead          bool
+}
+
+// observe is the C08 observation: every exported argument-free accessor
+// (recursively), read-only methods with simple synthesised arguments, and what
+// the library functions that take the value as a parameter make of it.
+//
+// The consumers work on the whole serialisation, so for a LeaseSet2 or
+// MetaLeaseSet (whose options the property leaves out) they belong to the
+// full observation only — the one judged while the exempt bytes are intact.
+func observe(v any, opt *obs.Options, whole bool) string {
+	o2 := *opt
+	o2.Args, o2.ArgMethod = consume.SynthArgs, func(n string) bool { return consume.ReadOnlyName(n) && n != "Equals" && n != "Equal" }
+	s := obs.Observe(v, &o2)
+	if whole {
+		s += " || consumers: " + consume.Consumers(v)
+	}
+	return s
 }
 
 func scribbleBytes(b []byte, mode int, seed uint64) {
@@ -185,6 +214,10 @@ func execute(s *engine.Script, o *engine.Outcome) {
 	if nbuf < 1 {
 		nbuf = 1
 	}
+	bufSize := int(s.Cfg("bufsize", defaultBufSize))
+	if bufSize < 1024 || bufSize > 1<<20 {
+		bufSize = defaultBufSize
+	}
 	pool := make([][]byte, nbuf)
 	for i := range pool {
 		pool[i] = make([]byte, bufSize)
@@ -233,7 +266,7 @@ func execute(s *engine.Script, o *engine.Outcome) {
 				continue
 			}
 			var got string
-			if o.Guard("observe "+lv.ad.Name, func() { got = obs.Observe(lv.val, lv.opt) }) {
+			if o.Guard("observe "+lv.ad.Name, func() { got = observe(lv.val, lv.opt, !lv.restricted) }) {
 				lv.dead = true
 				continue
 			}
@@ -245,7 +278,7 @@ func execute(s *engine.Script, o *engine.Outcome) {
 			}
 			if lv.fullOpt != nil && !lv.exemptTouched {
 				var full string
-				if o.Guard("observe(full) "+lv.ad.Name, func() { full = obs.Observe(lv.val, lv.fullOpt) }) {
+				if o.Guard("observe(full) "+lv.ad.Name, func() { full = observe(lv.val, lv.fullOpt, true) }) {
 					continue
 				}
 				o.Probe("full_observations_of_ls2_mls_with_options_untouched")
@@ -282,6 +315,15 @@ func execute(s *engine.Script, o *engine.Outcome) {
 				o.Probe("frame_too_large_for_buffer")
 				continue
 			}
+			atEnd := len(op.N) > 3 && op.N[3] == 1
+			if atEnd {
+				// flush with the end of the buffer: the slice handed to the parser
+				// has no spare capacity
+				follow = false
+				off = bufSize - n
+				o.Fault("parse-with-len-equal-cap")
+			}
+			twinBaseline := len(op.N) > 4 && op.N[4] == 1
 			if lastFrame[b] != nil {
 				o.Fault("recycle")
 			}
@@ -318,6 +360,7 @@ func execute(s *engine.Script, o *engine.Outcome) {
 					c = mlsOpt
 				}
 				lv.opt = &c
+				lv.restricted = true
 				fo := plainOpt
 				fo.OnPanic = onPanic
 				lv.fullOpt = &fo
@@ -331,11 +374,25 @@ func execute(s *engine.Script, o *engine.Outcome) {
 				lv.opt = &c
 			}
 			lv.opt.OnPanic = onPanic
-			if o.Guard("observe "+ad.Name, func() { lv.base = obs.Observe(lv.val, lv.opt) }) {
+			// what the value is expected to report: observed on the value itself
+			// right after the parse, or — so that accessors which fill something in
+			// lazily are also met for the first time AFTER an overwrite — on a twin
+			// parsed from a private copy of the same bytes
+			subject := lv.val
+			if twinBaseline {
+				private := append([]byte(nil), pool[b][off:end]...)
+				var tr adapters.Result
+				if o.Guard("parse twin "+ad.Name, func() { tr = ad.Parse(private, ad.Arg(op.Shape)) }) || !tr.OK {
+					continue
+				}
+				subject = tr.Val
+				o.Fault("value-untouched-until-first-overwrite")
+			}
+			if o.Guard("observe "+ad.Name, func() { lv.base = observe(subject, lv.opt, !lv.restricted) }) {
 				continue
 			}
 			if lv.fullOpt != nil {
-				if o.Guard("observe(full) "+ad.Name, func() { lv.fullBase = obs.Observe(lv.val, lv.fullOpt) }) {
+				if o.Guard("observe(full) "+ad.Name, func() { lv.fullBase = observe(subject, lv.fullOpt, true) }) {
 					lv.fullOpt = nil
 				}
 			}
@@ -382,7 +439,12 @@ func execute(s *engine.Script, o *engine.Outcome) {
 			mode := int(op.N[1]) % 4
 			var names []string
 			var sl [][]byte
-			if o.Guard("copy accessors "+lv.ad.Name, func() { names, sl = copySlices(lv.val) }) {
+			if o.Guard("copy accessors "+lv.ad.Name, func() {
+				names, sl = copySlices(lv.val)
+				// a second round of calls: an accessor must return a copy every time
+				n2, s2 := copySlices(lv.val)
+				names, sl = append(names, n2...), append(sl, s2...)
+			}) {
 				continue
 			}
 			for k := range sl {
